@@ -18,6 +18,9 @@ import (
 // For objects the value is the set of *supplied* properties. ok=false when no valid value could be constructed
 // (unsatisfiable constraints).
 func ValueFor(t *rapid.T, s *spec.Spec, env *model.Env, budget int) (any, bool) {
+	if budget < -24 {
+		return nil, false
+	}
 	switch s.Kind {
 	case spec.KInt:
 		return intFor(t, s.Min, s.Max)
